@@ -57,14 +57,33 @@ func (self Node) Len() (int, error) {
 func (self Node) len() (int, error) {
 	switch self.t {
 	case thrift.LIST, thrift.SET:
+		if self.l < 5 {
+			return -1, errShortNode
+		}
 		b := rt.BytesFrom(unsafe.Pointer(uintptr(self.v)+uintptr(1)), 4, 4)
 		return int(thrift.BinaryEncoding{}.DecodeInt32(b)), nil
 	case thrift.MAP:
+		if self.l < 6 {
+			return -1, errShortNode
+		}
 		b := rt.BytesFrom(unsafe.Pointer(uintptr(self.v)+uintptr(2)), 4, 4)
 		return int(thrift.BinaryEncoding{}.DecodeInt32(b)), nil
 	default:
 		return -1, errNode(meta.ErrUnsupportedType, "", nil)
 	}
+}
+
+// errShortNode is returned when a node's bytes are shorter than the value its type says they hold
+var errShortNode = errNode(meta.ErrRead, "node data is shorter than its type requires", nil)
+
+// validStringSize reports whether the 4-byte size prefix of a STRING node lies inside the node
+// and the size it announces does not exceed the bytes that follow it.
+func (self Node) validStringSize() bool {
+	if self.l < 4 {
+		return false
+	}
+	size := int(thrift.BinaryEncoding{}.DecodeInt32(rt.BytesFrom(self.v, 4, 4)))
+	return size >= 0 && size <= self.l-4
 }
 
 func (self Node) raw() []byte {
@@ -90,6 +109,9 @@ func (self Node) Byte() (byte, error) {
 func (self Node) byte() (byte, error) {
 	switch self.t {
 	case thrift.BYTE:
+		if self.l < 1 {
+			return 0, errShortNode
+		}
 		return byte(thrift.BinaryEncoding{}.DecodeByte(rt.BytesFrom(self.v, int(self.l), int(self.l)))), nil
 	default:
 		return 0, errNode(meta.ErrUnsupportedType, "", nil)
@@ -107,6 +129,9 @@ func (self Node) Bool() (bool, error) {
 func (self Node) bool() (bool, error) {
 	switch self.t {
 	case thrift.BOOL:
+		if self.l < 1 {
+			return false, errShortNode
+		}
 		return thrift.BinaryEncoding{}.DecodeBool(rt.BytesFrom(self.v, int(self.l), int(self.l))), nil
 	default:
 		return false, errNode(meta.ErrUnsupportedType, "", nil)
@@ -125,12 +150,24 @@ func (self Node) int() (int, error) {
 	buf := rt.BytesFrom(self.v, int(self.l), int(self.l))
 	switch self.t {
 	case thrift.I08:
+		if self.l < 1 {
+			return 0, errShortNode
+		}
 		return int(thrift.BinaryEncoding{}.DecodeByte(buf)), nil
 	case thrift.I16:
+		if self.l < 2 {
+			return 0, errShortNode
+		}
 		return int(thrift.BinaryEncoding{}.DecodeInt16(buf)), nil
 	case thrift.I32:
+		if self.l < 4 {
+			return 0, errShortNode
+		}
 		return int(thrift.BinaryEncoding{}.DecodeInt32(buf)), nil
 	case thrift.I64:
+		if self.l < 8 {
+			return 0, errShortNode
+		}
 		return int(thrift.BinaryEncoding{}.DecodeInt64(buf)), nil
 	default:
 		return 0, errNode(meta.ErrUnsupportedType, "", nil)
@@ -148,6 +185,9 @@ func (self Node) Float64() (float64, error) {
 func (self Node) float64() (float64, error) {
 	switch self.t {
 	case thrift.DOUBLE:
+		if self.l < 8 {
+			return 0, errShortNode
+		}
 		return thrift.BinaryEncoding{}.DecodeDouble(rt.BytesFrom(self.v, int(self.l), int(self.l))), nil
 	default:
 		return 0, errNode(meta.ErrUnsupportedType, "", nil)
@@ -165,6 +205,9 @@ func (self Node) String() (string, error) {
 func (self Node) string() (string, error) {
 	switch self.t {
 	case thrift.STRING:
+		if !self.validStringSize() {
+			return "", errShortNode
+		}
 		str := thrift.BinaryEncoding{}.DecodeString(rt.BytesFrom(self.v, int(self.l), int(self.l)))
 		// if self.d.IsBinary() {
 		// 	if !utf8.Valid(rt.Str2Mem(str)) {
@@ -188,6 +231,9 @@ func (self Node) Binary() ([]byte, error) {
 func (self Node) binary() ([]byte, error) {
 	switch self.t {
 	case thrift.STRING:
+		if !self.validStringSize() {
+			return nil, errShortNode
+		}
 		return thrift.BinaryEncoding{}.DecodeBytes(rt.BytesFrom(self.v, int(self.l), int(self.l))), nil
 	default:
 		return nil, errNode(meta.ErrUnsupportedType, "", nil)
